@@ -6,14 +6,17 @@ From XV Require Import C10.Spec10 C10.Model10.
 Import ListNotations.
 Local Open Scope N_scope.
 
-Inductive vtype := TStr | TTok | TInt | TDec | TDate | TQName | TNone.
-Definition vtype_eqb (a b : vtype) : bool :=
-  match a, b with
-  | TStr, TStr | TTok, TTok | TInt, TInt | TDec, TDec | TDate, TDate | TQName, TQName | TNone, TNone => true
-  | _, _ => false end.
+(** [TDer b id]: a type derived (in any number of steps, built-in or user-defined restriction) from a type whose
+    lexical/whitespace treatment is that of [b]; [id] is the identity of the type (DatatypeValidator object) *)
+Inductive vtype := TStr | TTok | TInt | TDec | TDate | TQName | TNone | TDer (b : vtype) (id : N).
+(** the built-in type that fixes whitespace handling and value space *)
+Fixpoint kind_of (t : vtype) : vtype := match t with TDer b _ => kind_of b | _ => t end.
+Definition type_code (t : vtype) : N :=
+  match t with TStr => 1 | TTok => 2 | TInt => 3 | TDec => 4 | TDate => 5 | TQName => 6 | TNone => 7 | TDer _ id => 100 + id end.
+Definition vtype_eqb (a b : vtype) : bool := type_code a =? type_code b.
 (** primitive type family (string <- token, decimal <- integer) *)
 Definition fam (t : vtype) : N :=
-  match t with TStr | TTok => 0 | TInt | TDec => 1 | TDate => 2 | TQName => 3 | TNone => 4 end.
+  match kind_of t with TStr | TTok => 0 | TInt | TDec => 1 | TDate => 2 | TQName => 3 | _ => 4 end.
 
 Record cval := mkCV { cv_ty : vtype; cv_canon : list N; cv_raw : list N }.
 
@@ -61,18 +64,15 @@ Definition qname_canon (ns : list (list N * list N)) (l : list N) : list N :=
   end.
 
 Definition value_of (ns : list (list N * list N)) (t : vtype) (lex : list N) : cval :=
-  match t with
-  | TStr => mkCV t lex lex
-  | TNone => mkCV t lex lex
+  match kind_of t with
   | TTok => let c := collapse lex in mkCV t c c
   | TInt | TDec => let c := collapse lex in mkCV t (dec_canon c) c
   | TDate => let c := collapse lex in mkCV t (date_canon c) c
   | TQName => let c := qname_canon ns (collapse lex) in mkCV t c c
+  | _ => mkCV t lex lex
   end.
 
 (** the "value" of a nilled element of type [t] (empty content): equal only to a nilled element of the same type *)
-Definition type_code (t : vtype) : N :=
-  match t with TStr => 1 | TTok => 2 | TInt => 3 | TDec => 4 | TDate => 5 | TQName => 6 | TNone => 7 end.
 Definition nil_value (t : vtype) : cval := mkCV t [0; type_code t] [].
 
 (** equality in the value space of the field types *)
@@ -81,7 +81,7 @@ Definition spec_veq (a b : cval) : bool := (fam (cv_ty a) =? fam (cv_ty b)) && l
 (** ICValueHasher::isDuplicateOf *)
 Definition is_nil_list (l : list N) : bool := match l with [] => true | _ => false end.
 Definition ceq (a b : cval) : bool :=
-  match cv_ty a, cv_ty b with
+  match kind_of (cv_ty a), kind_of (cv_ty b) with
   | TNone, _ | _, TNone => leqb (cv_raw a) (cv_raw b)
   | _, _ =>
     if is_nil_list (cv_raw a) && is_nil_list (cv_raw b) then vtype_eqb (cv_ty a) (cv_ty b)
